@@ -36,6 +36,9 @@ pub struct SemOpts {
     /// only locals, parameters, input/output signals (C09 domain)
     pub c09_domain: bool,
     pub force_template: Option<bool>,
+    /// favour the shapes whose facts arrive late during propagation: loop-carried updates
+    /// `x = x op e`, helper calls (no degree of their own) and array element chains (C20)
+    pub late_facts: bool,
 }
 
 pub fn gen_sem_case(t: &mut Tape, o: SemOpts) -> SemCase {
@@ -45,7 +48,7 @@ pub fn gen_sem_case(t: &mut Tape, o: SemOpts) -> SemCase {
     let mut ids = Ids::default();
     // pure helper functions (functions only call earlier helpers)
     let mut helpers: Vec<Def> = Vec::new();
-    let nh = t.below(3);
+    let nh = if o.late_facts { 1 + t.below(2) } else { t.below(3) };
     for i in 0..nh {
         let mut hp = Profile::sem(false, prime.clone());
         hp.max_stmts = 4;
@@ -77,6 +80,11 @@ pub fn gen_sem_case(t: &mut Tape, o: SemOpts) -> SemCase {
         if !template {
             p.data_params = true;
         }
+    }
+    if o.late_facts {
+        p.self_update_bias = 110;
+        p.call_bias = 40;
+        p.max_stmts = 6 + t.below(14);
     }
     if o.c09_domain {
         p.no_intermediate = true;
